@@ -188,7 +188,7 @@ func init() {
 	register(func() {
 		engine.Register(&engine.Check{
 			ID: "C03", Level: "exploration",
-			Rule: "byte strings: ALL strings of length <=2 over all 256 byte values; all strings of length 3..L over a per-format reduced alphabet (one symbol per parser branch: 52 CBOR, 27 UBJSON, 35 JSON symbols); length/argument fields set to 0,1,2^31,2^32,2^62,2^63-1,2^63,2^64-1 followed by 0-2 payload bytes; every single-byte deletion/truncation/substitution (from the reduced alphabet) of a corpus of valid documents; x entry points {Parse, ParseString, ParseReader, Write, BytesDecoder.Next loop, ReaderDecoder.Next loop} x chunkings {whole, every single cut, all single bytes}; oracle: no panic, deterministic step budget 2000+400n (no wall clock), allocation <= 1MiB+1KiB*(n+events), decoder loop terminates, and reference verdict Truncated => error other than io.EOF; a case is one input string (distinct by codec+bytes), non-trivial = at least 2 bytes",
+			Rule:        "byte strings: ALL strings of length <=2 over all 256 byte values; all strings of length 3..L over a per-format reduced alphabet (one symbol per parser branch: 52 CBOR, 27 UBJSON, 35 JSON symbols); length/argument fields set to 0,1,2^31,2^32,2^62,2^63-1,2^63,2^64-1 followed by 0-2 payload bytes; every single-byte deletion/truncation/substitution (from the reduced alphabet) of a corpus of valid documents; x entry points {Parse, ParseString, ParseReader, Write, BytesDecoder.Next loop, ReaderDecoder.Next loop} x chunkings {whole, every single cut, all single bytes}; oracle: no panic, deterministic step budget 2000+400n (no wall clock), allocation <= 1MiB+1KiB*(n+events), decoder loop terminates, and reference verdict Truncated => error other than io.EOF; a case is one input string (distinct by codec+bytes), non-trivial = at least 2 bytes",
 			Assumptions: []string{"bytes outside the reduced alphabet beyond length 2 take the default branches already represented", "time proportionality is established as a bound on instrumented steps (function entries and loop iterations), not seconds"},
 			Families:    c03Families,
 			Bounds: func(tier string) map[string]interface{} {
@@ -284,7 +284,9 @@ func c03Families(tier string) []engine.Family {
 			in[pos] = al[op-2]
 		}
 		x.Case(c.Codec.Name+string(in), len(in) >= 2)
-		x.Sample(func() interface{} { return map[string]interface{}{"codec": c.Codec.Name, "hex": hexs(in), "derived_from": hexs(doc)} })
+		x.Sample(func() interface{} {
+			return map[string]interface{}{"codec": c.Codec.Name, "hex": hexs(in), "derived_from": hexs(doc)}
+		})
 		c03Check(x, c.Codec, in, "edit", c03LightCombos(len(in)))
 	})
 	for i := range ed {
